@@ -36,7 +36,7 @@ fn corpus() -> Vec<Case> {
         let mut c = universe::decode(&universe::base_points()[b]);
         c.input.ch = ch;
         c.input.atoms = atoms;
-        c.input.full = full;
+        c.input.full = full.into();
         c.input.tail = tail;
         c.input.bs = 64.min(c.input.bs);
         v.push(c);
